@@ -402,6 +402,9 @@ class Session:
                 import tempfile
                 self.dir = self.dir or tempfile.mkdtemp(prefix='c14-', dir=TMPBASE[0])
                 st = FileStorage(os.path.join(self.dir, DBNAMES[i] + '.fs'))
+            elif case.get('storage') == 'hex':
+                from ZODB.tests.hexstorage import HexStorage
+                st = HexStorage(MappingStorage(DBNAMES[i]))      # records are transformed below the DB
             else:
                 st = MappingStorage(DBNAMES[i])
             self._stub(st, i, plans[i] if i < len(plans) else [])
@@ -1245,6 +1248,47 @@ class Session:
                                'same-database references are %s' % (key, got, got2, [o.hex() for o in want]))
         self.count('records-check')
 
+    def fsrefs_check(self):
+        """the view of ZODB.scripts.fsrefs (get_refs over every current record of a FileStorage): no reference
+        to a missing object"""
+        import contextlib
+        import ZODB.scripts.fsrefs
+        for i, st in enumerate(self.storages):
+            buf = io.StringIO()
+            try:
+                with contextlib.redirect_stdout(buf):
+                    ZODB.scripts.fsrefs.main(st.getName())
+            except Exception as e:
+                buf.write('fsrefs raised %r' % (e,))
+            self.count('fsrefs')
+            if buf.getvalue().strip():
+                self.violation('C14:fsrefs', 'fsrefs on %s reports: %s'
+                               % (DBNAMES[i], ' / '.join(buf.getvalue().split('\n'))[:500]))
+
+    def pack_check(self):
+        """the packer's view (DB.pack -> storage.pack(t, referencesf), through the record transformation of a
+        wrapper if there is one): everything reachable from the root through strong same-database references
+        survives a garbage-collecting pack"""
+        for i, db in enumerate(self.dbs):
+            want, todo = set(), [(i, Z64)]
+            while todo:
+                k = todo.pop()
+                if k in want or k[0] != i:
+                    continue
+                want.add(k)
+                todo += list(self.edges.get(k, ()))
+            try:
+                db.pack()
+            except Exception as e:
+                self.violation('C14:pack', 'DB.pack() of %s raised %r' % (DBNAMES[i], e))
+                continue
+            have = set(self._all_records(self.storages[i]))
+            missing = sorted(o.hex() for d, o in want if o not in have)
+            self.count('pack')
+            if missing:
+                self.violation('C14:pack', 'after DB.pack() of %s the objects %s, reachable from the root through strong '
+                               'same-database references, are gone' % (DBNAMES[i], missing))
+
     def export_check(self):
         """Connection.exportFile walks the database with referencesf: the export holds exactly the
         objects reachable from the root through strong same-database references"""
@@ -1474,6 +1518,13 @@ class Session:
     def final_phase(self):
         if not self.ncommits or not self.expect:
             return
+        try:
+            self.final_phases()
+        finally:
+            if not self.viol:
+                self.pack_check()           # last: it changes the storages
+
+    def final_phases(self):
         self.historical_phase()
         keys = sorted(set(self.expect) | {(i, Z64) for i in range(self.ndb)})
         allrecs = {(i, oid): data for i, st in enumerate(self.storages)
@@ -1502,6 +1553,8 @@ class Session:
             finally:
                 c14_classes.show_gone()
         self.records_check(allrecs)
+        if self.case.get('storage') == 'file':
+            self.fsrefs_check()
         self.export_check()
         self.import_check()
         if c14_classes.INIT_CALLS[0] != self.init_expected:
@@ -1929,6 +1982,8 @@ def gen_case(rng, thorough=False):
                 large_record_size=rng.choice([200, 1 << 24]))
     if ndb == 1 and case['storage'] == 'mapping' and rng.random() < 0.25:
         case['storage'] = 'config'
+    elif case['storage'] == 'mapping' and rng.random() < 0.1:
+        case['storage'] = 'hex'
     ops = case['ops']
     weak_p = rng.choice([0.0, 0.1, 0.1, 0.25])
     counter = [0]
@@ -2093,8 +2148,22 @@ CORPUS = [
 ]
 
 
+class CaseTimeout(Exception):
+    pass
+
+
+def _alarm(signum, frame):
+    raise CaseTimeout('the case did not finish within %d s' % CASE_TIMEOUT)
+
+
+CASE_TIMEOUT = 120
+
+
 def run_case(case):
+    import signal
     s = Session(case)
+    old_handler = signal.signal(signal.SIGALRM, _alarm)
+    signal.alarm(CASE_TIMEOUT)              # a blocked step becomes a verdict with its input, not a hang
     try:
         s.run()
     except InfraError:
@@ -2104,6 +2173,9 @@ def run_case(case):
         tb = traceback.extract_tb(e.__traceback__)
         where = '%s:%d' % (os.path.basename(tb[-1].filename), tb[-1].lineno) if tb else '?'
         s.violation('C14:crash:%s' % type(e).__name__, 'unexpected %r at %s' % (e, where))
+    finally:
+        signal.alarm(0)
+        signal.signal(signal.SIGALRM, old_handler)
     return s
 
 
